@@ -1,4 +1,5 @@
 import RR.Proof.Conc
+import RR.Gen.Conc
 import RR.Proof.RingRun
 
 /-!
@@ -97,5 +98,11 @@ def demo : List Step :=
 
 example : (run (init 4) demo).pw = some ⟨1, 2⟩ ∧ (run (init 4) demo).pr = some ⟨3, 2⟩ := by decide
 example : (step (run (init 4) demo) (.get 1)).2 = .value 9 := by decide
+
+/-- The model's atomic steps are what the source does: each of `consume`, `produce`,
+`read_buf`, `write_buf` takes the state lock exactly once and keeps it until after its last
+state update (shape regenerated from src/circular_buffer.rs on every run). A split
+critical section (snapshot, unlock, relock, write back) breaks this obligation. -/
+theorem c03_sections_as_modelled : Gen.lockShape = [(1, 0), (1, 0), (1, 0), (1, 0)] := by decide
 
 end RR.Props.C03
